@@ -74,6 +74,13 @@ func newValWorld(nGenesis int, maxVals uint32, histN uint32, genesisPowers ...in
 		if err != nil {
 			return nil, err
 		}
+		if i < len(genesisPowers) && genesisPowers[i] == -1 {
+			// a genesis entry without power (genesis validation accepts it): it never bonds, so it is neither
+			// announced to the consensus engine nor kept in state
+			v.ConsPower = 0
+			gs.Validators = append(gs.Validators, v)
+			continue
+		}
 		w.pow[string(w.ops[i])] = 1
 		if i < len(genesisPowers) && genesisPowers[i] > 0 {
 			v.ConsPower = genesisPowers[i]
@@ -82,6 +89,9 @@ func newValWorld(nGenesis int, maxVals uint32, histN uint32, genesisPowers ...in
 		gs.Validators = append(gs.Validators, v)
 		w.bonded[string(w.ops[i])] = i
 		w.keyOf[string(w.ops[i])] = i
+	}
+	if err := opchildtypes.ValidateGenesis(gs, l2.AK.AddressCodec()); err != nil {
+		return nil, fmt.Errorf("harness: generated genesis does not validate: %w", err)
 	}
 	updates := l2.K.InitGenesis(l2.Ctx, gs)
 	if err := l2.ApplyUpdates(updates); err != nil {
